@@ -256,6 +256,7 @@ func (s *Set) c02(w *simapi.Write, v *simapi.View) {
 type c10state struct {
 	cancelling  bool
 	superseding bool
+	armedByUser bool // cancelling was set at the user's rollback write; the controller has not acknowledged it yet
 	checked     int
 }
 
@@ -269,8 +270,10 @@ func (s *Set) c10(w *simapi.Write, v *simapi.View) {
 				s.count("c10_rollbacks_observed", 1)
 			}
 			st.cancelling = true
+			st.armedByUser = false
 		} else if st.cancelling && (reason == "Completed" || reason == "Initializing" || simapi.Str(w.After, "status.phase") != "Progressing") {
 			st.cancelling = false
+			st.armedByUser = false
 		}
 		if st.superseding && (reason == "Initializing" || reason == "Completed" || reason == "Cancelling" || simapi.Str(w.After, "status.phase") != "Progressing") {
 			st.superseding = false
@@ -284,6 +287,21 @@ func (s *Set) c10(w *simapi.Write, v *simapi.View) {
 		if bi != ai && ai != s.stableImg && bi != s.stableImg {
 			st.superseding = true
 			s.count("c10_supersessions_observed", 1)
+		}
+	}
+	if w.Actor == "user" && w.Key == s.S.WorkloadKey() && w.Before != nil && w.After != nil && s.inRolling() {
+		// the user's rollback itself arms the monitor, not only the controller's acknowledgement of it: a rollback that
+		// arrives while the release is rolling (whatever sub-state the last step is in) must be treated as one. Not
+		// armed when a rollback in batches applies (no traffic routing then anyway) and not for a revert that arrives
+		// before any pod of the new revision exists (the controllers handle that as one more release).
+		bi, ai := workloadImage(w.Before), workloadImage(w.After)
+		if bi != ai && ai == s.stableImg && s.S.HasTraffic() && !st.cancelling {
+			if tot, _ := s.podsByImage(v); tot[bi] > 0 {
+				st.cancelling = true
+				st.armedByUser = true
+				s.count("c10_rollbacks_observed", 1)
+				s.count("c10_rollbacks_armed_by_the_users_write", 1)
+			}
 		}
 	}
 	if !(st.cancelling || st.superseding) || !s.S.HasTraffic() || s.canary == s.stable {
@@ -316,6 +334,9 @@ func (s *Set) c10(w *simapi.Write, v *simapi.View) {
 		mode := "rollback"
 		if st.superseding {
 			mode = "supersession"
+		}
+		if st.armedByUser && !st.superseding {
+			mode = "rollback-not-acknowledged"
 		}
 		s.violate("C10", fmt.Sprintf("c10:%s:%s-before-traffic-restored", mode, what), fmt.Sprintf("%s during %s: %s %s while the gateway still sends share=%d match=%v to the canary Service via %v", what, mode, w.Actor, w.Key, cr.Share, cr.Match, cr.Sources), w, nil)
 	}
